@@ -3,6 +3,7 @@ import collections
 import glob
 import json
 import os
+import re
 import shutil
 import subprocess
 import time
@@ -309,8 +310,14 @@ def run_epochs(ctx, jobs, avoid, budget=600):
         if rc in (2, 3) and (not os.path.exists(jp) or os.path.getsize(jp) == 0):
             # nothing was sent yet: server start problem (a port taken by an unrelated outgoing
             # connection, slow election): one retry (the harness probes for free ports itself)
-            time.sleep(1)
-            rc, out, _ = sh(cmd, cwd=d, timeout=max(30, t_end - time.time()))
+            for attempt in (1, 2, 3):
+                time.sleep(1)
+                m = re.search(r"-port (\d+)", cmd)
+                if m:   # another port triple (the range overlaps the kernel's ephemeral ports)
+                    cmd = cmd.replace("-port " + m.group(1), "-port %d" % (34000 + (int(m.group(1)) - 34000 + 211 * attempt) % 990))
+                rc, out, _ = sh(cmd, cwd=d, timeout=max(30, t_end - time.time()))
+                if rc not in (2, 3) or (os.path.exists(jp) and os.path.getsize(jp) > 0):
+                    break
         res.append((sub, d, rc, out))
     mprocs = []
     for sub, d, rc, out in res:
